@@ -19,7 +19,8 @@ type sshdMsg struct {
 	Want     map[string]string `json:"want"`
 	Accepted bool              `json:"accepted"`
 	Method   string            `json:"method"` // password | pubkey | "" (failures)
-	KeyID    string            `json:"key_id"` // certificate key ID ("" = none)
+	KeyID    string            `json:"key_id"` // certificate key ID
+	HasCert  bool              `json:"has_cert"`
 	Feat     []string          `json:"feat"`   // structural features (non-triviality)
 }
 
@@ -90,7 +91,9 @@ func genIPv6(rt *rapid.T, label string, feat *[]string) string {
 	var s string
 	switch rapid.IntRange(0, 5).Draw(rt, label+".k") {
 	case 0:
-		s = pick(rt, label+".c", []string{"::1", "::", "fe80::1", "2001:db8::ff00:42:8329", "::ffff:192.0.2.128"})
+		s = pick(rt, label+".c", []string{"::1", "::", "fe80::1", "2001:db8::ff00:42:8329", "::ffff:192.0.2.128",
+			// valid but not in canonical form
+			"2001:DB8::1", "0:0:0:0:0:0:0:1", "fe80::0001", "::ffff:0a00:0001", "2001:0db8:0000:0000:0000:ff00:0042:8329"})
 	case 1, 2: // full form
 		g := rapid.SliceOfN(rapid.IntRange(0, 0xffff), 8, 8).Draw(rt, label+".g")
 		parts := make([]string, 8)
@@ -183,11 +186,12 @@ func genKeyID(rt *rapid.T, label string, feat *[]string) string {
 	kind := rapid.IntRange(0, 9).Draw(rt, label+".k")
 	switch {
 	case kind <= 2:
-		return pick(rt, label+".c", []string{"foo@bar.com", "foo", "user-1", "a", "0"})
+		return pick(rt, label+".c", []string{"foo@bar.com", "foo", "user-1", "a", "0", ""}) // ssh-keygen -I '' gives an empty key ID
 	case kind <= 5:
 		return genStringOf(rt, label+".s", []rune("abcdefghijklmnopqrstuvwxyzABCXYZ0123456789@._-+=/"), 1, 40)
 	default:
-		toks := []string{"serial", "(serial 7)", "ID", "CA", "(", ")", "@", "john doe", "x", "42", "(serial", "serial)", "ID x", "CA ED25519", "ops team", "a.b", "é"}
+		toks := []string{"serial", "(serial 7)", "ID", "CA", "(", ")", "@", "john doe", "x", "42", "(serial", "serial)", "ID x", "CA ED25519", "ops team", "a.b", "é",
+			"ticket#123", "pr#012", "dev#007", "a%0ab", "\\n", "c#", "#1"}
 		n := rapid.IntRange(2, 6).Draw(rt, label+".n")
 		parts := make([]string, n)
 		for i := range parts {
@@ -320,7 +324,7 @@ func genSshdMsgForm(rt *rapid.T, form string) sshdMsg {
 				*feat = append(*feat, "self_signed_certificate")
 			}
 			m.Msg += fmt.Sprintf(" ID %s (serial %s) CA %s %s:%s", id, serial, cakt, cahn, cafp)
-			m.KeyID = id
+			m.KeyID, m.HasCert = id, true
 			m.Want["userID"], m.Want["Serial"] = id, serial
 			m.Want["CA"] = fmt.Sprintf("CA %s %s:%s", cakt, cahn, cafp)
 		}
@@ -627,7 +631,8 @@ func genHostileName(rt *rapid.T) string {
 	case 6:
 		s = frag("f1")
 	case 7:
-		toks := []string{"from", "port", "ssh2", "invalid", "user", "1.2.3.4", "22", "::1", "x", "for", "Failed", "password"}
+		toks := []string{"from", "port", "ssh2", "invalid", "user", "1.2.3.4", "22", "::1", "x", "for", "Failed", "password",
+			"error:", "fatal:", "debug1:", "sshd[77]:", "build#101", "dev#007", "pr#012"}
 		n := rapid.IntRange(1, 10).Draw(rt, "n")
 		parts := make([]string, n)
 		for i := range parts {
